@@ -45,7 +45,7 @@ def required_cells(tier):
              'blank-lines-before-first-block', 'ignored-block-before-doctest',
              'opening-line-differs-from-evaluated-text', 'open:on-the-def-line',
              'traceback-entries-of-inner-frames', 'file-encoding:latin-1',
-             'identifier-normalised-by-the-compiler'])
+             'identifier-normalised-by-the-compiler', 'google-block-opens-with-prose:start-line-under-the-header'])
 
 
 def gen_doctest(rng, uid, fail_kind):
@@ -164,7 +164,12 @@ def gen_module(rng, seed):
             if style == 'google':
                 if rng.random() < 0.3:
                     body += ['Args:', '    a (int): thing', ''] + [''] * rng.choice([0, 0, 1, 2])
-                body += [rng.choice(['Example:', 'Doctest:', 'Examples:'])] + ['    ' + ln if ln else ln for ln in L] + ['']
+                lead = []
+                if rng.random() < 0.25:
+                    # the block opens with prose (and an empty line) in front of its first prompt
+                    lead = rng.choice([['    Typical use:', ''], ['    Some prose first,', '    two lines of it.', ''], ['']])
+                    feats.add('google-block-opens-with-prose')
+                body += [rng.choice(['Example:', 'Doctest:', 'Examples:'])] + lead + ['    ' + ln if ln else ln for ln in L] + ['']
             else:
                 if rng.random() < 0.3:
                     # freeform parsing ignores the doctest under one of these labels; its lines (wants included)
@@ -330,12 +335,21 @@ def check_module(ctx, idx, seed):
             ctx.event('doctests_observed')
             ln = e.lineno
             if not (1 <= ln <= len(flines)) or first not in flines[ln - 1]:
+                first_ln = 1 + next(i for i, x in enumerate(flines) if first in x)
+                # finding F51 by mechanism: the reported line is the one under a google block header and nothing but
+                # prose / empty lines lies between it and the first prompt
+                under_header = (style == 'google' and 2 <= ln < first_ln and
+                                flines[ln - 2].strip() in ('Example:', 'Doctest:', 'Examples:') and
+                                not any('>>>' in x for x in flines[ln - 1:first_ln - 1]))
                 bad('start-line', 'doctest %s:%d is reported to start at line %r (%r) but its first prompt (%s) is on line %d' % (
-                    cn, num, ln, flines[ln - 1] if 1 <= ln <= len(flines) else None, first,
-                    1 + next(i for i, x in enumerate(flines) if first in x)), kind=kind)
-                ok_all = False
-                break
-            ctx.cell('start-line-checks')
+                    cn, num, ln, flines[ln - 1] if 1 <= ln <= len(flines) else None, first, first_ln), kind=kind,
+                    block_opens_with_prose=under_header)
+                if not under_header:
+                    ok_all = False
+                    break
+                ctx.cell('google-block-opens-with-prose:start-line-under-the-header')
+            else:
+                ctx.cell('start-line-checks')
             e._parse()
             part_ok = True
             for p in e._parts:
@@ -432,6 +446,8 @@ def replay(case, ctx):
 
 
 def classify(v):
+    if v.get('mechanism') == 'start-line' and v.get('block_opens_with_prose'):
+        return 'google-block-start-line-under-header'
     return None
 
 
